@@ -205,6 +205,9 @@ pub struct Config {
     /// collect()/extend() are fed from an iterator whose size_hint lower bound is inexact (0)
     #[serde(default)]
     pub inexact_iter: bool,
+    /// merge sources report honest size hints instead of the default (0, None)
+    #[serde(default)]
+    pub src_hints: bool,
     /// name of the workload that generated this run (evidence only)
     pub workload: String,
 }
